@@ -23,6 +23,8 @@ RULE = ("programs = sequences of 3-15 stochastic API calls (7 mating protocols, 
         "seeded global streams.  Outputs are compared as bit-level digests call by call; optimisers also by the sequence of decisions "
         "evaluated.  Non-trivial: every program; distinct = digest of (seed, program).")
 ASSUME = ["outputs are compared through pickled arrays/frames/labels (bit-level)",
+          "objects built (and shallow-copied; deep-copied where the class defines __deepcopy__) BEFORE seeding belong to 'whatever was executed "
+          "before the re-seeding'; a default copy.deepcopy of a protocol clones its generator and is not asserted to follow later seeds",
           "an entropy tap on numpy.random.default_rng / os.urandom only *explains* divergences; output equality decides"]
 VERIF = os.path.dirname(os.path.dirname(os.path.dirname(os.path.abspath(__file__))))
 
@@ -72,6 +74,16 @@ class World:
                                                    trait=numpy.array(["y1", "y2"], dtype=object))
         self.ebv = g.normal(size=(8, 2))
         self.w = g.uniform(0.1, 1.0, 6)
+        # objects a user builds once, *before* seeding, and keeps using afterwards (also through copies)
+        import copy as _copy
+        from pybrops.breed.prot.pt.G_E_Phenotyping import G_E_Phenotyping
+        self.prebuilt = {}
+        for n_ in MATE:
+            cls = getattr(importlib.import_module("pybrops.breed.prot.mate." + n_), n_)
+            o = cls()
+            self.prebuilt[n_] = {"orig": o, "copy": _copy.copy(o), "deepcopy": _copy.deepcopy(o)}
+        o = G_E_Phenotyping(self.mod, 2, 2, 1.0, 0.5, 1.0)
+        self.prebuilt["G_E_Phenotyping"] = {"orig": o, "copy": _copy.copy(o), "deepcopy": _copy.deepcopy(o)}
 
     def problem(self, enc, nobj, record):
         P = importlib.import_module("pybrops.breed.prot.sel.prob.EstimatedBreedingValueSelectionProblem")
@@ -106,6 +118,16 @@ def enc_of(name):
 
 def component(name):
     """callable(world, rng) -> output; rng None = library global generator."""
+    if "@" in name:
+        base, variant = name.split("@")
+
+        def f(w, rng, _b=base, _v=variant):
+            o = w.prebuilt[_b][_v]
+            if _b == "G_E_Phenotyping":
+                return o.phenotype(w.pg)
+            xc = numpy.array([[(i + c) % 8 for i in range(o.nparent)] for c in range(2)])
+            return o.mate(w.pg, xc, 2, 2, nself=1)
+        return f
     if name in MATE:
         def f(w, rng, _n=name):
             cls = getattr(importlib.import_module("pybrops.breed.prot.mate." + _n), _n)
@@ -188,11 +210,19 @@ def _samp():
 
 
 ACCEPT_RNG = MATE + ["G_E_Phenotyping"] + CFGS + ["sus", "tiled_choice", "axis_shuffle", "outcross_shuffle", "SteepestDescentSubsetHillClimber"] + GAS
-GLOBAL_ONLY = ["spawn", "apply_jitter", "EMBV"]
+# copy.deepcopy is only driven for classes that declare their own __deepcopy__ (G_E_Phenotyping shares its generator with the copy);
+# a default deep copy of a mating protocol clones the generator object, and whether such a clone must follow later re-seeding
+# is not something the property states (counted in ASSUME, not asserted)
+PREBUILT = [m + "@" + v for m in ("TwoWayCross", "FourWayDHCross", "SelfCross") for v in ("orig", "copy")] + \
+           ["G_E_Phenotyping@" + v for v in ("orig", "copy", "deepcopy", "deepcopy")]
+GLOBAL_ONLY = ["spawn", "apply_jitter", "EMBV"] + PREBUILT
 ALL = ACCEPT_RNG + GLOBAL_ONLY
 
 
 def site_of(name):
+    if "@" in name:
+        b, v = name.split("@")
+        return "%s.%s via %s made before seeding" % (b, "phenotype" if b == "G_E_Phenotyping" else "mate", {"orig": "object", "copy": "copy.copy", "deepcopy": "copy.deepcopy"}[v])
     if name in MATE:
         return name + ".mate"
     if name in CFGS:
@@ -235,16 +265,21 @@ def run_program(prog, wseed, seed, prefix):
     """Execute prefix junk, seed the library, run the program with the global generator; returns per-call digests."""
     import pybrops.core.random.prng as prng
     pg = numpy.random.Generator(numpy.random.PCG64(prefix))
+    import pybrops.core.random.prng as prng
     for _ in range(int(pg.integers(0, 5))):       # different interpreter history before re-seeding
         random.random(); numpy.random.random(int(pg.integers(1, 9)))
+    for _ in range(int(pg.integers(0, 4))):       # ... including an odd number of normal deviates (cached second deviate)
+        numpy.random.standard_normal(); prng.normal(); random.gauss(0, 1)
+    if pg.random() < 0.5:
+        numpy.random.standard_normal(); random.gauss(0, 1)
     if prefix % 2:
         w0 = World(wseed + 1)
         try:
             component("TwoWayCross")(w0, None); component("sus")(w0, None)
         except Exception:
             pass
+    w = World(wseed)          # built before seeding: holds protocol objects (and copies of them) made in the old history
     prng.seed(seed)
-    w = World(wseed)
     out = []
     taps = []
     for name in prog:
